@@ -104,10 +104,46 @@ func directionUpdaterRule(p *Prog, r *Report, rule string, mods map[string]bool,
 				field := path[len(path)-1]
 				var alts []ssa.Value
 				expand(st.Val, 0, &alts, map[ssa.Value]bool{})
+				// the arithmetic may sit in a pure helper of the package (adjust(current, amount, increase)):
+				// its returns are the alternatives, its parameters stand for this call's arguments
+				bind := map[ssa.Value]ssa.Value{}
+				{
+					var more []ssa.Value
+					for _, a := range alts {
+						c, isC := a.(*ssa.Call)
+						if !isC {
+							more = append(more, a)
+							continue
+						}
+						h := c.Call.StaticCallee()
+						if h == nil || h.Pkg != fn.Pkg || len(h.Blocks) == 0 || h.Signature.Results().Len() != 1 {
+							more = append(more, a)
+							continue
+						}
+						for i, pr := range h.Params {
+							if i < len(c.Call.Args) {
+								bind[pr] = c.Call.Args[i]
+							}
+						}
+						for _, rt := range returns(h) {
+							if len(rt.Results) == 1 {
+								expand(rt.Results[0], 0, &more, map[ssa.Value]bool{})
+							}
+						}
+					}
+					alts = more
+				}
+				sub := func(v ssa.Value) ssa.Value {
+					if b, ok := bind[v]; ok {
+						return b
+					}
+					return v
+				}
 				classes := map[string]bool{}
 				relevant := false
 				for _, a := range alts {
 					op, recv, x, isAS := addSubOf(a)
+					recv, x = sub(recv), sub(x)
 					if isAS && isAmt(x) && p.fromRecordFieldsLoose(recv, map[string]bool{tn: true}, map[string]bool{field: true}) {
 						classes[op] = true
 						relevant = true
@@ -345,8 +381,29 @@ func positiveAmountRule(p *Prog, r *Report, rule string, mods map[string]bool, f
 			r.Instance(rule)
 			r.FuncsSeen[fname(fn)] = true
 			construct := fmt.Sprintf("%s %s > 0", fname(fn), fieldName)
-			g1 := p.cmpGuard(fieldName+" >= 0", isField, isZeroValue, RGE)
-			g2 := p.cmpGuard(fieldName+" != 0", isField, isZeroValue, RNE)
+			mk := func(name string, req Rel) *GuardSpec {
+				g := p.cmpGuard(name, isField, isZeroValue, req)
+				// the tests may sit in a validation helper of the package: validateAmount(m.Amount)
+				g.CallPass = func(callee *ssa.Function, call ssa.CallInstruction) bool {
+					if callee.Pkg != fn.Pkg || len(callee.Blocks) == 0 {
+						return false
+					}
+					for i, a := range call.Common().Args {
+						if i >= len(callee.Params) || !isField(a) {
+							continue
+						}
+						pr := callee.Params[i]
+						hg := p.cmpGuard(name, func(v ssa.Value) bool { return v == ssa.Value(pr) }, isZeroValue, req)
+						if ok, _, _ := p.Guarded(hg, callee, nil); ok {
+							return true
+						}
+					}
+					return false
+				}
+				return g
+			}
+			g1 := mk(fieldName+" >= 0", RGE)
+			g2 := mk(fieldName+" != 0", RNE)
 			ok1, _, w1 := p.Guarded(g1, fn, nil)
 			ok2, _, w2 := p.Guarded(g2, fn, nil)
 			switch {
